@@ -133,3 +133,47 @@ def for_special(I, it, st, env):
         raise PathAbort()          # body did not raise on the witness: contradiction
     d.base = LazyBase(member_fn, run_body, descr)
     return True
+
+
+def dict_comprehension(I, it, node, g, env):
+    """{key: value for key in S} over a set of names (or a lazily defined dict): the
+    for-each-insert rule for a comprehension.  Returns None when the iterable is ordinary."""
+    from .builtin_contracts import SDict, DictView
+    from .interp import Raise, PathAbort, Unsupported, Env
+    if isinstance(it, SSet):
+        member_fn = lambda k: sym.member(k, it.term)
+        src = None
+    elif isinstance(it, DictView) and it.d.base is not None and isinstance(it.d.base, LazyBase) and not it.d.entries:
+        member_fn = it.d.base.member_fn
+        src = it
+    else:
+        return None
+    if src is None:
+        if not (isinstance(g.target, ast.Name) and isinstance(node.key, ast.Name) and node.key.id == g.target.id):
+            raise Unsupported("dict comprehension over a set whose key is not the loop variable")
+        bind = lambda e, key: e.vars.__setitem__(g.target.id, key)
+    else:
+        if src.kind != "items" or not (isinstance(g.target, ast.Tuple) and len(g.target.elts) == 2
+                                       and all(isinstance(x, ast.Name) for x in g.target.elts)
+                                       and isinstance(node.key, ast.Name) and node.key.id == g.target.elts[0].id):
+            raise Unsupported("dict comprehension over a lazily defined dict of unsupported shape")
+        kv, vv = g.target.elts[0].id, g.target.elts[1].id
+
+        def bind(e, key):
+            e.vars[kv] = key
+            e.vars[vv] = src.d.base.get(I, key)
+    I.ghost.setdefault("foreach_sites", []).append(f"{env.module.relpath}:{node.lineno}")
+
+    def run_body(I2, key):
+        e2 = Env(env.module, env, env.funcdef, env.frame_id)
+        bind(e2, key)
+        return I2.eval(node.value, e2)
+    if I.path.branch(z3.Bool(I.path.fresh_name(f"dictcomp@{node.lineno}.some-element-raises")), f"dictcomp-raises@{node.lineno}"):
+        kw = z3.Const(I.path.fresh_name(f"kw@{node.lineno}"), sym.Name)
+        I.path.assume(member_fn(kw))
+        I.ghost.setdefault("ambient_names", []).append(kw)
+        run_body(I, SName(kw))
+        raise PathAbort()
+    d = SDict(base=LazyBase(member_fn, run_body, f"dictcomp@{node.lineno}"))
+    I.heap_log.append(("alloc-dict", id(d), None, I.where()))
+    return d
